@@ -11,7 +11,7 @@ ENGINE = "gen_concat"
 RULE = ("programs = `const` items invoking str_concat! (over &[&str] and &[char]; inline array, named const, &CONST array, `[piece; COUNT]` with a named count; in a third of the programs the caller's constants carry names that konst's own macro bodies give to their helper items - LEN, STR, CONC, ... harvested from /repo's sources), "
         "str_join! (str and char separators: empty, 1-, 2-, 3-, 4-byte, multi-char; literal or named const), string::from_iter! "
         "(DSL chains yielding &str / &&str / char incl. flat_map, filter, map, rev, char ranges) and slice_concat! (u8, u16, &str, "
-        "char, raw-pointer and raw-pointer-holding struct elements (Copy but not Sync), empty inner slices, empty list) with 0..=4 pieces of <= 3 chars over {a,é,漢,😀,NUL} incl. empty pieces; "
+        "char, raw-pointer and raw-pointer-holding struct elements (Copy but not Sync), empty inner slices, empty list) with 0..=4 pieces of <= 3 chars over {a,é,漢,😀,NUL} (a quarter of the programs: over the first / last scalar of each UTF-8 length and of each side of the surrogate gap; 45 fixed programs put each of those 9 scalars in every char / str element and separator position) incl. empty pieces; "
         "plus the CStr constructors / views evaluated in const items on byte strings with and without interior / trailing nul (error paths included); oracle = the std expression on the same constants compared at run time (plus: a program that fails const evaluation "
         "while its std twin compiles is a violation); non-trivial = >= 2 pieces with a multi-byte piece or separator or an empty "
         "piece, counted per distinct program")
@@ -19,19 +19,27 @@ RULE = ("programs = `const` items invoking str_concat! (over &[&str] and &[char]
 CH = ["a", "é", "漢", "😀", "\0"]
 
 
+# first / last scalar of every UTF-8 length and of the two halves around the surrogate gap: a length computed by a
+# hand-written range table and the bytes written by encode_utf8 only disagree on these
+BOUNDARY = ["\x7f", "\u0080", "\u07ff", "\u0800", "\ud7ff", "\ue000", "\uffff", "\U00010000", "\U0010ffff"]
+
+
 def esc(s):
-    return s.replace("\0", "\\0")
+    return "".join("\\0" if c == "\0" else "\\u{%x}" % ord(c) if c in BOUNDARY else c for c in s)
 
 
 def lit(s):
     return "\"" + esc(s) + "\""
 
 
+CUR = CH
+
+
 def piece(rng):
     if rng.random() < 0.12:
-        return "".join(rng.choice(CH) for _ in range(rng.choice([8, 15, 16, 17, 31, 32, 33, 64])))
+        return "".join(rng.choice(CUR) for _ in range(rng.choice([8, 15, 16, 17, 31, 32, 33, 64])))
     n = rng.choice([0, 1, 1, 2, 3])
-    return "".join(rng.choice(CH) for _ in range(n))
+    return "".join(rng.choice(CUR) for _ in range(n))
 
 
 _NAMES = None
@@ -97,6 +105,8 @@ def gen_plain(rng, i):
         interior = 0 in bs[:-1] if bs else False
         return decl, "(bool, bool, (usize, usize, bool))", kexpr, oexpr, interior or (bs and bs[-1] != 0), {"kind": "cstr", "bytes": bs}
     k = rng.randint(0, 4)
+    global CUR
+    CUR = BOUNDARY + ["a"] if rng.random() < 0.25 else CH
     pieces = [piece(rng) for _ in range(k)]
     nt = len(pieces) >= 2 and (any(not p.isascii() for p in pieces) or any(p == "" for p in pieces))
     decl = ""
@@ -144,8 +154,8 @@ def gen_plain(rng, i):
             sep = rng.choice(["", ",", ", ", "é", "漢", "😀", "a😀é", "0123456789abcdef", "é" * 17])
             sep_tok = lit(sep)
         else:
-            sep = rng.choice([",", "é", "漢", "😀", " "])
-            sep_tok = "'%s'" % sep
+            sep = rng.choice(BOUNDARY if CUR is not CH else [",", "é", "漢", "😀", " "])
+            sep_tok = "'%s'" % esc(sep)
         arr = "[" + ", ".join(lit(p) for p in pieces) + "]"
         form = rng.choice(["inline", "named"])
         if form == "named":
@@ -258,6 +268,19 @@ def fixed_cases():
     for a, b in (("usize::MAX", "1"), ("usize::MAX / 2 + 1", "usize::MAX / 2 + 1"), ("usize::MAX", "usize::MAX")):
         out.append(("", "(usize,)", "(konst::slice::slice_concat!((), &[&[(); %s], &[(); %s]]).len(),)" % (a, b), "(0usize,)", True,
                     {"kind": "slice_concat", "form": "length_overflow", "lengths": [a, b], "expect": "reject"}))
+    for b in BOUNDARY:
+        e = esc(b)
+        d = {"form": "utf8_length_boundary", "scalar": "U+%04X" % ord(b)}
+        out.append(("", "&str", "konst::string::str_concat!(&['a', '%s', 'a', '%s'])" % (e, e),
+                    "['a', '%s', 'a', '%s'].iter().collect::<String>()" % (e, e), True, dict(d, kind="concat_char")))
+        out.append(("", "&str", "konst::string::str_concat!(&[\"%s\", \"a%s\", \"\"])" % (e, e),
+                    "[\"%s\", \"a%s\", \"\"].concat()" % (e, e), True, dict(d, kind="concat_str")))
+        out.append(("", "&str", "konst::string::str_join!('%s', &[\"a\", \"%s\", \"\"])" % (e, e),
+                    "[\"a\", \"%s\", \"\"].join('%s'.to_string().as_str())" % (e, e), True, dict(d, kind="join", sep="char")))
+        out.append(("", "&str", "konst::string::str_join!(\"%sa\", &[\"\", \"%s\", \"b\"])" % (e, e),
+                    "[\"\", \"%s\", \"b\"].join(\"%sa\")" % (e, e), True, dict(d, kind="join", sep="str")))
+        out.append(("", "&str", "konst::string::from_iter!(&['%s', 'a', '%s'], copied(), rev())" % (e, e),
+                    "['%s', 'a', '%s'].iter().copied().rev().collect::<String>()" % (e, e), True, dict(d, kind="from_iter")))
     return out
 
 
